@@ -18,6 +18,7 @@ pub mod c02;
 pub mod c04;
 pub mod c07;
 pub mod c08;
+pub mod c12;
 
 pub fn all() -> Vec<Prop> {
     vec![
@@ -29,7 +30,9 @@ pub fn all() -> Vec<Prop> {
         c04::prop_c06(),
         c07::prop(),
         c08::prop_c08(),
+        c12::prop_c12(),
         c08::prop_c13(),
         c08::prop_c14(),
+        c12::prop_c15(),
     ]
 }
